@@ -123,3 +123,14 @@ func (s *State) EntityActions() []*vikjapb.EntityAction {
 	}
 	return entityActions
 }
+
+// RemoveEntityActionsUnless removes the actions of the given entity unless
+// keep reports true; keep is called with the entity actions locked.
+func (s *State) RemoveEntityActionsUnless(entityID uint32, keep func() bool) {
+	s.entityActionMutex.Lock()
+	defer s.entityActionMutex.Unlock()
+
+	if !keep() {
+		delete(s.entityActions, entityID)
+	}
+}
